@@ -103,10 +103,19 @@ func runC16(c *Ctx) {
 	// num()
 	numFn := p.LangFunc("nativeNum")
 	parsed := "&lang.NewValue(strconv.ParseFloat(*args[0].Str, 64)#0)"
+	// the arity test: through the helper, or written out
+	numArity := "lang.checkArgCount(args, 1) == nil"
+	if numFn != nil {
+		for _, rc := range p.successResults(numFn) {
+			if rc.Value == parsed && setOf(rc.Guards)["len(args) == 1"] {
+				numArity = "len(args) == 1"
+			}
+		}
+	}
 	c.checkArm("R1", "builtin num", numFn, armSpec{
 		Results: []string{"&lang.NewValue(int(*args[0].Num))", neutralNull, parsed},
 		Effects: []string{},
-		Guards:  map[string][]string{parsed: {"strconv.ParseFloat(*args[0].Str, 64)#1 == nil", "args[0].Tag == ValueStr", "lang.checkArgCount(args, 1) == nil"}},
+		Guards:  map[string][]string{parsed: {"strconv.ParseFloat(*args[0].Str, 64)#1 == nil", "args[0].Tag == ValueStr", numArity}},
 		Source:  "num(s): strconv.ParseFloat(s, 64), null on its error and for non-string non-number arguments",
 	})
 	if numFn != nil {
